@@ -122,6 +122,7 @@ func tscenarios() []tscenario {
 	mk("reader.metadata", 3, 1, nil)
 	mk("writer.WriteMessages", 0, 1, nil)
 	mk("writer.WriteMessages/metadata", 3, 1, nil)
+	mk("writer.WriteMessages/unapplied", 0, 1, nil) // the produce request whose response is cut was lost before the broker stored it
 	return sc
 }
 
@@ -216,7 +217,7 @@ func (s *tscenario) body(env *tenv) (string, string, string) {
 		}
 		rd := kafka.NewReader(kafka.ReaderConfig{Brokers: []string{"broker:9092"}, Topic: ttopic, Partition: 0,
 			Dialer:   &kafka.Dialer{DialFunc: env.b.Dial, Timeout: 2 * time.Second, ClientID: "verif"},
-			MinBytes: 1, MaxBytes: 1 << 20, MaxWait: 50 * time.Millisecond, ReadBatchTimeout: 2 * time.Second,
+			MinBytes: 1, MaxBytes: 1 << 20, MaxWait: 50 * time.Millisecond, ReadBatchTimeout: tTimeout,
 			ReadBackoffMin: time.Millisecond, ReadBackoffMax: 5 * time.Millisecond, MaxAttempts: 5, ReadLagInterval: -1})
 		var got []connfake.Msg
 		res := guard(10*time.Second, func() error {
@@ -224,7 +225,9 @@ func (s *tscenario) body(env *tenv) (string, string, string) {
 				return err
 			}
 			for len(got) < 12 {
-				ctx, cancel := ctx3()
+				// the application waits longer than the Reader's own ReadBatchTimeout: a response that stalls is the
+				// Reader's business (give the connection up, dial again, resume), not the caller's
+				ctx, cancel := context.WithTimeout(context.Background(), 2*tTimeout+2*time.Second)
 				m, err := rd.ReadMessage(ctx)
 				cancel()
 				if err != nil {
@@ -256,6 +259,8 @@ func (s *tscenario) body(env *tenv) (string, string, string) {
 		w := &kafka.Writer{Addr: taddr, Topic: ttopic, Transport: env.tr, Balancer: &kafka.RoundRobin{}, BatchTimeout: time.Millisecond,
 			BatchSize: 1, MaxAttempts: 4, WriteBackoffMin: time.Millisecond, WriteBackoffMax: 5 * time.Millisecond, RequiredAcks: kafka.RequireAll}
 		before := len(env.b.Log())
+		unapplied := strings.HasSuffix(s.name, "/unapplied")
+		env.b.SetUnapplied(unapplied)
 		var okVals []string // values whose WriteMessages call returned nil, in submission order
 		nsub := 0
 		write := func() error {
@@ -293,6 +298,13 @@ func (s *tscenario) body(env *tenv) (string, string, string) {
 			}
 			if c < 1 || c > 2 {
 				data = fmt.Sprintf("value-%s-x%d", v, c)
+			}
+		}
+		// every produce request — first attempt or retry — carries its batch (BatchSize 1 here: one record): a retry
+		// must not go out with what is left of a reader the first attempt consumed
+		for i, n := range env.b.ProduceRecords() {
+			if n == 0 && data == "intact" {
+				data = fmt.Sprintf("produce-request-%d-without-records", i+1)
 			}
 		}
 		if strings.HasSuffix(s.name, "/metadata") && first != "hang" {
@@ -662,7 +674,8 @@ func transportPath(out *bufio.Writer, r *rand.Rand, thorough bool) (n int, slowe
 func transportStall(out *bufio.Writer, r *rand.Rand, thorough bool) (n int) {
 	for _, s := range tscenarios() {
 		s := s
-		if !strings.HasPrefix(s.name, "client.") || badTotal >= badBudget {
+		isFetch := strings.HasPrefix(s.name, "reader.fetch")
+		if !(strings.HasPrefix(s.name, "client.") || isFetch) || badTotal >= badBudget {
 			continue
 		}
 		_, _, flen := runT(&s, -1)
@@ -672,6 +685,15 @@ func transportStall(out *bufio.Writer, r *rand.Rand, thorough bool) (n int) {
 		ks := []int{0, 4 + r.Intn(flen-4)}
 		if !thorough {
 			ks = []int{ks[r.Intn(2)]}
+		}
+		if isFetch {
+			// the Reader's fetch: some records complete, then silence with the connection still open — the batch is
+			// left with announced bytes that never come; ReadBatchTimeout (400 ms here) must end every wait, the
+			// discard of Batch.Close included
+			ks = []int{flen - 5}
+			if thorough {
+				ks = append(ks, flen/2)
+			}
 		}
 		for _, k := range ks {
 			t0 := time.Now()
